@@ -93,6 +93,11 @@ func c08Item(r *rand.Rand, sel int, tier string) Ev {
 		}
 	}
 	ptr := []int{0, 0, 0, 1, 2, 5}[r.Intn(6)]
+	if sel == 9 || sel == 10 {
+		// any pointer_field: the whole 8-bit range, in particular values that look like something else (0xFC is the
+		// table_id, 0xFF stuffing) and the largest ones
+		ptr = []int{100, 182, 183, 200, 251, 252, 253, 254, 255, 252, 255, 128, 127}[r.Intn(13)]
+	}
 	if sel == 8 {
 		// pointer_field 71 (what a sync byte looks like); when the section is short enough it is padded to 116 bytes so
 		// that the whole payload is 188 bytes long
